@@ -408,12 +408,9 @@ def corpus():
 _CACHE: dict = {}
 
 
-class _Exe:
+def _mk_exe_class():
     """built lazily: a controllable executor (shared memory, or by value with the copy taken at submission or
     when the job is picked up); every job pokes its owner's inputs before it runs"""
-
-
-def _mk_exe_class():
     if "cls" in _CACHE:
         return _CACHE["cls"]
     import pickle
@@ -861,7 +858,7 @@ def _run_tree(case):
                 t.inputs[in_label(t, op[1])].disconnect_all()
                 return "ok"
             if kind == "rerun":
-                t.run()
+                do_run(t, not is_twin)  # refused at once while out; instrumented in case it is not
                 return "ok"
             return "bad-op"
         except ReadinessError:
